@@ -234,11 +234,15 @@ class Aggregator:
 
 
 # ---------------------------------------------------------------- replay / shrink
-def replay_scenario(prop: str, scenario: dict, seed: int, timeout: float = 120.0) -> dict:
+def replay_scenario(prop: str, scenario: dict, seed: int, timeout: float | None = None) -> dict:
     """Execute a scenario in a fresh forked child of a warmed process."""
     from . import harness
     harness.setup_process()
     mod = load_prop(prop)
+    if timeout is None:
+        # a replay is ONE evaluation, but possibly the slowest one (C18: a history extended to 1350 runs, on a loaded machine):
+        # three times the per-evaluation limit of the property's tiers, at least two minutes
+        timeout = max(120.0, 3.0 * max(float(c.get("timeout_s", 60.0)) for c in mod.CONFIG.values() if isinstance(c, dict)))
     if hasattr(mod, "warm"):
         mod.warm()
     return _fork_run(mod, [seed], "replay", timeout, scenario=scenario)[0]
